@@ -9,21 +9,21 @@ type C19Case struct {
 
 // C19Res is the abstracted result of one call.
 type C19Res struct {
-	OK     bool   `json:"ok"`
-	Err    string `json:"err,omitempty"`
-	Addr   string `json:"addr,omitempty"`   // Start / ReattachConfig
-	Ptr    string `json:"ptr,omitempty"`    // Client: identity of the returned protocol client
-	Str    string `json:"str,omitempty"`    // Protocol / ID
-	Bool   bool   `json:"bool,omitempty"`   // Exited; ReattachConfig non-nil
-	Hung   bool   `json:"hung,omitempty"`
-	Panic  string `json:"panic,omitempty"`
+	OK    bool   `json:"ok"`
+	Err   string `json:"err,omitempty"`
+	Addr  string `json:"addr,omitempty"` // Start / ReattachConfig
+	Ptr   string `json:"ptr,omitempty"`  // Client: identity of the returned protocol client
+	Str   string `json:"str,omitempty"`  // Protocol / ID
+	Bool  bool   `json:"bool,omitempty"` // Exited; ReattachConfig non-nil
+	Hung  bool   `json:"hung,omitempty"`
+	Panic string `json:"panic,omitempty"`
 }
 
 type C19End struct {
-	Launches     int    `json:"launches"` // runner.Start calls (or RunnerFunc invocations that reached Start)
-	RunnerFuncs  int    `json:"runnerFuncs"`
-	Kills        int    `json:"kills"`
-	PluginDirs   int    `json:"pluginDirs"` // plugin-dir* left in the private temp dir at the end (after a final Kill)
-	FinalKillOK  bool   `json:"finalKillOk"`
-	Dump         string `json:"dump,omitempty"`
+	Launches    int    `json:"launches"` // runner.Start calls (or RunnerFunc invocations that reached Start)
+	RunnerFuncs int    `json:"runnerFuncs"`
+	Kills       int    `json:"kills"`
+	PluginDirs  int    `json:"pluginDirs"` // plugin-dir* left in the private temp dir at the end (after a final Kill)
+	FinalKillOK bool   `json:"finalKillOk"`
+	Dump        string `json:"dump,omitempty"`
 }
